@@ -21,7 +21,7 @@ def _sub_cfgs():
            [{"d1": "float64", "d2": "float64", "inplace": ip, "free": True} for ip in (True, False)]      # free arithmetics switched on
 
 
-@contract(HB + ".__isub__", props=["C13", "C14", "C18"], name="histogram subtraction")
+@contract(HB + ".__isub__", props=["C13", "C14", "C18", "C19"], name="histogram subtraction")
 class _sub:
     bounded = True
     bound_note = BOUND
@@ -140,7 +140,7 @@ def _aadd_cfgs():
            [{"c1": 1, "c2": 1, "d1": "int64", "d2": "float64"}, {"c1": 1, "c2": 2, "d1": "float64", "d2": "int64"}]      # operands of different dtypes
 
 
-@contract(HB + ".__iadd__", props=["C05", "C12", "C13", "C18"], name=HB + ".__iadd__[adaptive, grid-compatible]")
+@contract(HB + ".__iadd__", props=["C05", "C12", "C13", "C14", "C18"], name=HB + ".__iadd__[adaptive, grid-compatible]")
 class _iadd_adaptive:
     bounded = True
     bound_note = "adaptive addition: operands with <= 2 bins each on a common grid, union of at most 6 bins"
